@@ -169,7 +169,7 @@ func (m *Machine) formatArg(verb byte, flags string, a Value) Str {
 		}
 		if t != nil {
 			for _, name := range []string{"Error", "String"} {
-				if fn := m.P.SSA.LookupMethod(t, nil, name); fn != nil && fn.Signature.Params().Len() == 0 &&
+				if fn := m.P.Method(t, name); fn != nil && fn.Signature.Params().Len() == 0 &&
 					fn.Signature.Results().Len() == 1 && isString(fn.Signature.Results().At(0).Type()) {
 					r := m.CallFunction(fn, []Value{v}, nil).(Str)
 					if verb == 'q' {
@@ -199,6 +199,9 @@ func (m *Machine) formatArg(verb byte, flags string, a Value) Str {
 			return ConcStr("false", s)
 		}
 		signed := t != nil && isSigned(t)
+		if m.looseFmt > 0 && !x.IsConst() {
+			return ConcStr("<sym>", s)
+		}
 		switch verb {
 		case 'd', 'v':
 			return m.FormatInt(x, signed)
@@ -273,6 +276,14 @@ func (m *Machine) quoteStr(x Str) Str {
 		m.unsupported("%q of symbolic string")
 	}
 	return ConcStr(strconv.Quote(c), m.S)
+}
+
+// SprintfLoose is Sprintf for error messages: symbolic integers are rendered as "<sym>"
+// instead of forking on their digit count (message text is not observed by any property).
+func (m *Machine) SprintfLoose(format string, args []Value) Str {
+	m.looseFmt++
+	defer func() { m.looseFmt-- }()
+	return m.Sprintf(format, args)
 }
 
 // Sprintf interprets a concrete format string over (possibly symbolic) operands.
@@ -374,7 +385,7 @@ func (m *Machine) WriteTo(w Iface, data Str) {
 		m.opaqueMethod(o, "Write", []Value{buf})
 		return
 	}
-	fn := m.P.SSA.LookupMethod(w.T, nil, "Write")
+	fn := m.P.Method(w.T, "Write")
 	if fn == nil {
 		m.unsupported("Write method on " + w.T.String())
 	}
@@ -396,7 +407,7 @@ func init() {
 				}
 			}
 		}
-		return m.mkError(m.Sprintf(strings.ReplaceAll(concStrArg(m, a[0], "format"), "%w", "%v"), args), cause)
+		return m.mkError(m.SprintfLoose(strings.ReplaceAll(concStrArg(m, a[0], "format"), "%w", "%v"), args), cause)
 	})
 	reg("fmt.Sprint", func(m *Machine, fn *ssa.Function, a []Value) Value { return m.Sprint(m.variadic(a[0]), false) })
 	reg("fmt.Sprintln", func(m *Machine, fn *ssa.Function, a []Value) Value { return m.Sprint(m.variadic(a[0]), true) })
@@ -434,7 +445,7 @@ func init() {
 	reg("errors.New", func(m *Machine, fn *ssa.Function, a []Value) Value { return m.mkError(a[0].(Str), nil) })
 	reg("github.com/pkg/errors.New", func(m *Machine, fn *ssa.Function, a []Value) Value { return m.mkError(a[0].(Str), nil) })
 	reg("github.com/pkg/errors.Errorf", func(m *Machine, fn *ssa.Function, a []Value) Value {
-		return m.mkError(m.Sprintf(concStrArg(m, a[0], "format"), m.variadic(a[1])), nil)
+		return m.mkError(m.SprintfLoose(concStrArg(m, a[0], "format"), m.variadic(a[1])), nil)
 	})
 	wrap := func(m *Machine, err Value, msg Str) Value {
 		e := err.(Iface)
@@ -447,7 +458,7 @@ func init() {
 	}
 	reg("github.com/pkg/errors.Wrap", func(m *Machine, fn *ssa.Function, a []Value) Value { return wrap(m, a[0], a[1].(Str)) })
 	reg("github.com/pkg/errors.Wrapf", func(m *Machine, fn *ssa.Function, a []Value) Value {
-		return wrap(m, a[0], m.Sprintf(concStrArg(m, a[1], "format"), m.variadic(a[2])))
+		return wrap(m, a[0], m.SprintfLoose(concStrArg(m, a[1], "format"), m.variadic(a[2])))
 	})
 	reg("internal/abi.NoEscape", func(m *Machine, fn *ssa.Function, a []Value) Value { return a[0] })
 	reg("runtime.Caller", func(m *Machine, fn *ssa.Function, a []Value) Value {
@@ -605,4 +616,13 @@ func (m *Machine) countSub(b, sub []*Term) int {
 func (m *Machine) Stdout(s Str) {
 	old, _ := m.Extra["stdout"].(Str)
 	m.Extra["stdout"] = Str{append(append([]*Term{}, old.B...), s.B...)}
+}
+
+// Method finds the exported method name in the method set of t (nil if absent).
+func (p *Program) Method(t types.Type, name string) *ssa.Function {
+	sel := p.SSA.MethodSets.MethodSet(t).Lookup(nil, name)
+	if sel == nil {
+		return nil
+	}
+	return p.SSA.MethodValue(sel)
 }
